@@ -12,6 +12,8 @@ from vf import lab, oracle
 from vf.core import Prop, Outcome, fd
 
 from deep.api.tracepoint.trigger import Trigger, LineLocation, LocationAction, Location, build_trigger
+from deep.grpc import convert_response
+from deepproto.proto.tracepoint.v1.tracepoint_pb2 import TracePointConfig
 
 PATH, LINE = 'c05_target.py', 3
 
@@ -199,6 +201,9 @@ def max_depth_of(snap, frame_vars):
     return max(depth.values()) if depth else 0
 
 
+DEFAULTS = {'MAX_VARIABLES': 1000, 'MAX_STRING_LENGTH': 1024, 'MAX_COLLECTION_SIZE': 10, 'MAX_VAR_DEPTH': 5}
+
+
 class C05(Prop):
     id = 'C05'
     level = 'exploration'
@@ -233,7 +238,11 @@ class C05(Prop):
             'capture': st.sampled_from([None, None, 'small', 'big', 'big']),
             # the fields of the snapshot's log message are evaluated and recorded on the same snapshot
             # where the limits are put: into the action's configuration directly, or into the tracepoint's arguments
-            'route': st.sampled_from(['config', 'args']),
+            'route': st.sampled_from(['config', 'args', 'response']),
+            'limit_texts': st.dictionaries(
+                st.sampled_from(['MAX_VARIABLES', 'MAX_STRING_LENGTH', 'MAX_COLLECTION_SIZE', 'MAX_VAR_DEPTH']),
+                st.sampled_from(['plain', 'plain', 'padded', 'word', 'empty', 'fraction', 'inf', 'negative', 'no_limit']),
+                max_size=2),
             'log_fields': st.one_of(st.just([]), st.lists(st.sampled_from(
                 ['list(big)', "'q' * 90", 'tuple(big)', 'v0', '[[k] for k in big]', 'str(big)']), max_size=3)),
         })
@@ -247,10 +256,25 @@ class C05(Prop):
             made.append(b.build(spec, made))
         frame_locals = {'v%d' % i: v for i, v in enumerate(made)}
         frame_locals['big'] = list(range(1000, 1040))
-        lim = recipe['limits']
+        lim = dict(recipe['limits'])
+        cfg = dict(lim)
+        route = recipe.get('route') or 'config'
+        if route != 'config':
+            # limits are text on this route, written the way people and other programs write numbers; one that cannot
+            # be read as a whole number >= 0 leaves that limit at its default - and only that one
+            for name, how in (recipe.get('limit_texts') or {}).items():
+                n = lim[name]
+                text, effective = {
+                    'plain': (str(n), n), 'padded': (' %d ' % n, n), 'word': ('many', DEFAULTS[name]),
+                    'empty': ('', DEFAULTS[name]), 'fraction': ('%d.5' % n, DEFAULTS[name]),
+                    'inf': ('inf', DEFAULTS[name]), 'negative': ('-1', DEFAULTS[name]),
+                    'no_limit': ('18446744073709551615', 18446744073709551615),
+                }[how]
+                cfg[name], lim[name] = text, effective
+                if how != 'plain':
+                    out.cls('limit_written_unusually')
         limits = oracle.Limits(lim['MAX_STRING_LENGTH'], lim['MAX_COLLECTION_SIZE'], lim['MAX_VAR_DEPTH'],
                                lim['MAX_VARIABLES'])
-        cfg = dict(lim)
         cfg.update({'watches': list(recipe['watches']), 'frame_type': recipe['frame_type'], 'fire_count': '-1',
                     'fire_period': '0'})
         if recipe.get('log_fields'):
@@ -259,12 +283,27 @@ class C05(Prop):
         if recipe.get('capture'):
             cfg['stage'] = 'line_capture'
             out.cls('deferred_capture')
-        if recipe.get('route') == 'args':
+        if route in ('args', 'response'):
             # the way a user configures a tracepoint: its arguments (text, as the service and register_tracepoint take
-            # them), turned into a trigger by the agent itself
+            # them), turned into a trigger by the agent itself - from a poll response, or as register_tracepoint does
             out.cls('limits_given_as_tracepoint_arguments')
             args = {k: str(v) for k, v in cfg.items() if k != 'watches'}
-            trig = build_trigger('tp', PATH, LINE, args, list(recipe['watches']), [])
+            try:
+                if route == 'response':
+                    out.cls('tracepoint_from_a_poll_response')
+                    trigs = convert_response([TracePointConfig(ID='tp', path=PATH, line_number=LINE, args=args,
+                                                               watches=list(recipe['watches']))])
+                    if len(trigs) != 1:
+                        out.violate('a tracepoint of a poll response was dropped because of how a limit is written',
+                                    {'args': {k: v for k, v in args.items() if k.startswith('MAX_')}})
+                        return out
+                    trig = trigs[0]
+                else:
+                    trig = build_trigger('tp', PATH, LINE, args, list(recipe['watches']), [])
+            except BaseException as e:      # noqa
+                out.violate('building the tracepoint from its arguments raised %s' % type(e).__name__,
+                            {'args': {k: v for k, v in args.items() if k.startswith('MAX_')}})
+                return out
         else:
             act = LocationAction('tp', None, cfg, LocationAction.ActionType.Snapshot)
             trig = Trigger(LineLocation(PATH, LINE, Location.Position.START), [act])
